@@ -8,9 +8,9 @@ import (
 
 // The scope-stack primitives of the builder on normalised paths (C02-d, C04-j).
 //
-//   pushArgsSet  every path appends one empty scope to the stack;
-//   popArgsSet   every path removes exactly the top scope;
-//   addArg       a nil label does nothing; a present label is appended to the top scope, on every path.
+//	pushArgsSet  every path appends one empty scope to the stack;
+//	popArgsSet   every path removes exactly the top scope;
+//	addArg       a nil label does nothing; a present label is appended to the top scope, on every path.
 //
 // A path that establishes "the stack is empty" is exempt: there the statements the primitives consist of would panic
 // (index -1, slice bound -1), so a defensive early return changes nothing for any run that did not crash before.
